@@ -593,6 +593,14 @@ def _cd_accessor(attr):
             if len(w.parsed) != 1:
                 return
             pr = w.params[0]
+            # RFC 7578 5.1 / HTML5: field names and plain file names are sent as UTF-8 -- what is parsed is the UTF-8 reading of the header bytes
+            from pyvc.core import mk_str as _mk
+
+            if w.cd is None:
+                v.check('content-disposition-is-read-as-utf-8', w.parsed[0] == '')
+            else:
+                v.check('content-disposition-is-read-as-utf-8',
+                        Or(And(_is_ascii(w.cd), w.parsed[0] == _mk(w.cd.t, 'str')), w.parsed[0] == _mk(_DEC(w.cd.t, z3.StringVal('utf-8')), 'str')))
         if attr == 'name':
             nm = pr.seen.get('name')
             v.check('name-is-the-name-parameter-or-none', out.value is None if nm is None else out.value == nm)
@@ -789,6 +797,10 @@ KILLS = [
      'BodyPart.filename#filename-is-the-plain-parameter-or-none-without-an-extended-one'),
     (_MPF, "        charset = options.get('charset', self._parse_options.default_charset)\n", "        charset = options.get('charset', 'utf-8')\n",
      'BodyPart.get_text#text-is-the-part-decoded-with-its-charset-or-the-default'),
+    # field names / file names read with the wrong codec (mojibake for every non-ASCII name, and no error for invalid UTF-8)
+    (_MPF, "                    self._content_disposition = parse_header(value.decode())\n                except ValueError as err:\n                    raise MultipartParseError(\n                        description='invalid Content-Disposition header of a body part'\n                    ) from err\n\n            _, params = self._content_disposition\n            self._name",
+     "                    self._content_disposition = parse_header(value.decode('latin-1'))\n                except ValueError as err:\n                    raise MultipartParseError(\n                        description='invalid Content-Disposition header of a body part'\n                    ) from err\n\n            _, params = self._content_disposition\n            self._name",
+     'BodyPart.name#content-disposition-is-read-as-utf-8'),
     # the closing "--" is not looked at after the very first delimiter: a form of zero parts is rejected
     (_MPF, "                if stream.peek(2) == b'--':\n", "                elif stream.peek(2) == b'--':\n", 'MultipartForm.__iter__#closing-delimiter-ends-the-form'),
     (_AMPF, "                if await stream.peek(2) == b'--':\n", "                elif await stream.peek(2) == b'--':\n", 'MultipartForm._iterate_parts#closing-delimiter-ends-the-form'),
